@@ -40,7 +40,8 @@ CLASS_NAMES = ["ASTNode", *[c for c in M.CLASS_NAMES if c != "BombNode"]]
 ALL_FIELDS = sorted({f.name for c in M.TABLE for f in c.fields if c.name != "BombNode"} - {"children"})
 SEQ_OK_FIELDS = sorted({f.name for c in M.TABLE for f in c.fields
                         if c.name != "BombNode" and (f.is_child or f.kind in ("int", "optint", "tint"))} - {"children"})
-REGEXES = ["", ".*", "\\d+", "a", "1", "True", "None", "Color", "\\(", "[ab]+", "x y", "-?\\d", "b", "a b", "ab", "x y$", "a b", "x y", "a  b"]
+REGEXES = ["", ".*", "\\d+", "a", "1", "True", "None", "Color", "\\(", "[ab]+", "x y", "-?\\d", "b", "a b", "ab", "x y$", "a b", "x y", "a  b",
+           'a|\\"', '\\"', '\\"a\\"', 'x\\\\\\"']  # escaped quotes at the end / start / both; an escaped backslash before one
 
 
 def is_node(v: Any) -> bool:
@@ -146,7 +147,11 @@ def _rx_for(v: Any, d: P.Det) -> str:
 
 def _rx_for0(v: Any, d: P.Det) -> str:
     s = str(v)
-    k = d.next(6)
+    k = d.next(8)
+    if k == 6:
+        return re.escape(s) + '|"'  # a literal that *ends* in an escaped quote
+    if k == 7:
+        return '"|' + re.escape(s)  # ... and one that starts with it
     if k == 0 or not s:
         return re.escape(s)
     if k == 1:
@@ -375,6 +380,11 @@ def check_case(data: dict, lab: Labels) -> None:
             else:
                 d_ = _same_caps(dict(caps), exp_caps)
                 require(d_ is None, "captures", f"{text!r} on {type(node).__name__}: {d_}")
+            if isinstance(caps, dict):
+                # the caller owns what it was handed: writing into it must not show up in later results
+                caps["scribble"] = node
+                caps.pop(next(iter(caps)), None) if len(caps) > 1 and pi % 2 else None
+                lab.tag("returned-captures-modified" if ok else "returned-empty-captures-modified")
             res_for_p.append((node, exp_ok, exp_caps))
             lab.tag("verdict-match" if exp_ok else "verdict-nomatch")
             lab.count("pairs")
@@ -442,6 +452,8 @@ def check_case(data: dict, lab: Labels) -> None:
                         f"{defs} rules={rules}: {None if got is None else got[0]} expected {exp[0]}")
                 d_ = _same_caps(dict(got[1]), exp[1])
                 require(d_ is None, "multi-captures", f"{defs} rules={rules} rule {exp[0]}: {d_}")
+                if isinstance(got[1], dict):
+                    got[1]["scribble"] = node
             lab.count("multi")
 
 
